@@ -14,6 +14,7 @@ Binary operators take the type of their operands (which must agree), so the same
 at nat, int and real by changing the type field of its leaves (`retype`).
 """
 import contextlib
+import json
 import gc
 import math
 import signal
@@ -499,7 +500,7 @@ def features(rec, goalT, macro):
     return f, ops
 
 
-def near_equal(goal):
+def near_equal(goal, via_irrational=False):
     """Both sides of the innermost relation are distinct but agree to ~15 significant digits."""
     g = goal
     while g.is_not():
@@ -511,7 +512,8 @@ def near_equal(goal):
         return False
     ma, mb = arith.midpoint(a), arith.midpoint(b)
     if ma == mb:
-        return not (isinstance(a, Fraction) and isinstance(b, Fraction))
+        # equal values: near-equal for a float evaluation whenever an intermediate value is irrational
+        return not (isinstance(a, Fraction) and isinstance(b, Fraction)) or via_irrational
     scale = max(abs(ma), abs(mb))
     return abs(ma - mb) <= scale / 10 ** 14
 
@@ -529,9 +531,12 @@ def root_cause(macro, goal_json, goalT, feats, asserted):
             cf = None
         if asserted is None or cf is None or cf == asserted:
             return 'goal-type-not-' + intended
-    if macro == 'const_inequality' and ('irrational' in feats or 'real-power' in feats):
+    if macro == 'const_inequality' and ('irrational' in feats or 'real-power' in feats) and \
+            ('near-equal' in feats or 'huge-constant' in feats):
         # the only way from const_inequality into Python floats: real_eval gives up (sqrt, pi, ..., a real power whose
-        # exponent is not a Python int) and real_approx_eval takes over
+        # exponent is not a Python int) and real_approx_eval takes over; rounding decides only when the two sides agree
+        # to ~14 digits, or when a constant beyond 10^18 loses its low digits as a double (cos 10^26); a grossly wrong
+        # value on ordinary constants is another root cause: 'in-domain'
         return 'float-compare'
     if macro == 'real_norm' and 'non-integer-exponent' in feats:
         return 'float-power'      # convert_to_poly: Fraction ** Fraction leaves the rationals
@@ -566,7 +571,7 @@ def run_case(case, H):
     rec = []
     goal, goalT = build_goal(case.get('goal'), rec)
     feats, ops = features(rec, goalT, macro)
-    if 'free-variables' not in feats and near_equal(goal):
+    if 'free-variables' not in feats and near_equal(goal, 'irrational' in feats or 'real-power' in feats):
         feats.add('near-equal')
     status, th = run_macro(macro, goal)
     klass = sorted(feats)
@@ -817,9 +822,12 @@ def strategies(deep=False):
         lhs = draw(expr(T, spec['ops'], depth))
         v = value_of(lhs)
         mode = draw(st.sampled_from(['true', 'true', 'true', 'true', 'alt', 'alt', 'alt', 'confuse', 'confuse', 'confuse',
-                                     'near', 'near', 'float', 'float', 'off1', 'random', 'expr']))
+                                     'near', 'near', 'float', 'float', 'off1', 'random', 'expr', 'fnconf', 'fnconf']))
         base = None if v is None else arith.midpoint(v)
         rhs = None
+        force_rel = None
+        if mode != 'fnconf' and 'fn' in spec['ops'] and draw(st.integers(0, 3)) == 0:
+            mode = 'fnconf'
         if mode == 'alt':
             # the value under the other subtraction semantics (what an evaluator written for another type computes)
             w = alt_value(lhs, trunc=(T != 'nat'))
@@ -845,6 +853,47 @@ def strategies(deep=False):
                 q = Fraction(10) ** digits
                 rhs = _num(T, Fraction(math.floor(lo * q) - draw(st.integers(0, 1)), q)
                            if draw(st.booleans()) else Fraction(math.ceil(hi * q) + draw(st.integers(0, 1)), q))
+        if base is not None and mode == 'fnconf':
+            # a rational strictly between the true value and the value with ONE function confused with its sibling
+            # (sec <-> csc, sin <-> cos, tan <-> cot, exp <-> log, sqrt -> identity): what a mis-wired evaluator computes
+            swaps = {'sec': 'csc', 'csc': 'sec', 'sin': 'cos', 'cos': 'sin', 'tan': 'cot', 'cot': 'tan', 'exp': 'log',
+                     'log': 'exp', 'sqrt': 'abs', 'atn': 'tan'}
+            sites = []
+
+            def walk(e, path):
+                if isinstance(e, list):
+                    if e and e[0] == 'fn' and e[1] in swaps:
+                        sites.append(path)
+                    for i, x in enumerate(e):
+                        walk(x, path + (i,))
+            walk(lhs, ())
+            if not sites and T == 'real' and 'fn' in spec['ops']:
+                # no function in the drawn expression: apply one to a small constant
+                lhs = ['fn', draw(st.sampled_from(sorted(swaps))), _num(T, Fraction(draw(st.integers(1, 12)), draw(st.sampled_from([1, 2, 3, 4]))))]
+                v = value_of(lhs)
+                base = None if v is None else arith.midpoint(v)
+                sites = [()] if base is not None else []
+            if sites:
+                site = draw(st.sampled_from(sites))
+                conf = json.loads(json.dumps(lhs))
+                node = conf
+                for i in site:
+                    node = node[i]
+                node[1] = swaps[node[1]]
+                w = value_of(conf)
+                if w is not None:
+                    wb = arith.midpoint(w)
+                    if wb != base:
+                        mid = (base + wb) / 2
+                        for q in (10, 1000, 10 ** 6, 10 ** 12):       # a short rational strictly in between, if there is one
+                            r = Fraction(round(mid * q), q)
+                            if min(base, wb) < r < max(base, wb):
+                                mid = r
+                                break
+                        rhs = _num(T, mid) if T == 'real' else None
+                        if rhs is not None and draw(st.integers(0, 3)):
+                            # false as it stands, true for the confused evaluator
+                            force_rel = 'gt' if base < wb else 'lt'
         if rhs is None and base is not None and mode == 'near':
             if T == 'real':
                 k = draw(st.integers(16, 40))
@@ -873,6 +922,8 @@ def strategies(deep=False):
         rel = draw(st.sampled_from(rels)) if draw(st.integers(0, 14)) else draw(st.sampled_from(('eq',) + CMP))
         a, b = (lhs, rhs) if draw(st.integers(0, 3)) else (rhs, lhs)
         g = [rel, a, b]
+        if force_rel is not None and force_rel in rels:
+            g = [force_rel, lhs, rhs]
         pneg = 4 if spec['neg'] else 20
         if draw(st.integers(0, pneg - 1)) == 0:
             g = ['not', g]
